@@ -38,6 +38,8 @@ Pairs(k) == (k * (k - 1)) \div 2
 TrSampled == /\ HasEvent("Sampled") /\ UNCHANGED vars
              /\ Consume(Named([
                   raised |-> E.raised,
+                  \* a sub-sample of distinct elements holds no pair at distance 0 (positions are drawn without replacement)
+                  element_drawn_twice |-> ~E.raised /\ E.distinct /\ E.zero # 0,
                   sample_size_wrong |-> ~E.raised /\ E.total #
                       (IF E.n2 = 0 THEN Pairs(IF E.ms = 0 THEN E.n ELSE Min2n(E.n, E.ms))
                        ELSE (IF E.ms = 0 THEN E.n ELSE Min2n(E.n, E.ms)) * (IF E.ms = 0 THEN E.n2 ELSE Min2n(E.n2, E.ms))) ]))
